@@ -324,12 +324,21 @@ def do_io_expectations(prog, houses):
         if toks[0] == "frame":
             cur_frame = toks[1].format(**names)
             continue
-        if toks[0] != "do" or "via" in toks or "per" not in toks or cur_frame is None:
+        if toks[0] != "do" or "per" not in toks or cur_frame is None:
             continue
         k = toks.index("per")
         field, word = toks[k + 1], toks[k + 2]
         if word not in metagen.ADDR_SHARE_WORDS:
             continue
+        absvia = None
+        if "via" in toks:
+            # only the absolute via inode (`.top.w`): "absolute references never depend on the names of the framers, frames or
+            # actors that use them" - nor on the inodes they are written under; the io share is exactly <via>.<word>
+            v = toks.index("via")
+            nxt = toks[v + 2] if v + 2 < len(toks) else None
+            if not toks[v + 1].startswith(".") or nxt == "of":
+                continue
+            absvia = toks[v + 1].strip(".")
         for t in everyone.values():
             frame = t.frameNames.get(cur_frame)
             if frame is None:
@@ -347,6 +356,11 @@ def do_io_expectations(prog, houses):
                 continue
             if getattr(t, "original", True) and t.name in [names[f] for f, m in zip(prog["framers"], prog["moot"]) if m]:
                 continue      # the never run moot original itself
+            if absvia is not None:
+                want = "%s.%s" % (absvia, word)
+                out.append((line_index + 1, field, t.name, None if got == want else (
+                    "resolved to .%s although the do names the absolute inode .%s: expected exactly .%s" % (got, absvia, want)), "absolute-via"))
+                continue
             inodes = []
             fr, F = frame, t
             while F is not None:
